@@ -7,14 +7,41 @@ TAGS = ['sexit', 'caught', 'tfin', 'spawn']
 RULE = ('(a) scope trees: nested (until-)scopes (depth <= 3, <= 3 children each, volatile or delayed), bodies and children that '
         'sleep/raise (regular and privileged types)/return, cancels from inside and from a separate activity after t time units '
         'and k postponements, deadlines and flags on a coarse time grid, everything wrapped in handlers that log what they catch; '
-        '(b) random valid whole-API programs (no usage errors); non-trivial = a scope was left with an exception')
+        '(b) random valid whole-API programs (no usage errors); (c) the body or a sibling awaiting a child of the same scope that fails meanwhile; non-trivial = a scope was left with an exception')
 
 
 def nontrivial(impl):
     return any(':sexit:' in e and e.split(':')[4].split(',')[2] == '1' for e in impl['events'])
 
 
-SOURCES = [scopesuite.scope_tree, scopesuite.valid_scenario]
+def await_failing_child(rng):
+    """the body of a scope, or a sibling, awaits a child of the same scope that fails meanwhile (also while the scope is already
+    waiting for its children at the end of the block): the failure must come out once, as `Concurrent`, and the awaiting
+    sibling is closed - it does not fail with the same exception a second time"""
+    from fractions import Fraction as F
+    d = rng.choice([F(1, 2), 1, 2])
+    cls = rng.choice([0, 1, 2, 3, 4])
+    body = [['spawn', 0, 0, None, None, False, ['prog', ['sleep', d], ['raise', cls]]]]
+    for i in range(rng.randint(0, 2)):
+        body.append(['spawn', 0, 1 + i, None, None, rng.random() < 0.2,
+                     ['prog', ['sleep', rng.choice([0, F(1, 2)])], ['awaittask', 0], ['log', 60 + i]]])
+    r = rng.random()
+    if r < 0.5:
+        body.append(['awaittask', 0])            # the body itself waits for the failing child
+        body.append(['log', 70])
+    elif r < 0.8:
+        body.append(['sleep', rng.choice([0, F(1, 4)])])     # graceful end: the scope waits for its children
+    else:
+        body.append(['sleep', 5])
+    main = ['prog', ['try', ['body', ['scope', 0, ['none']] + body], ['handler', ['pats', 'concurrent', 'anyException'], ['body', ['log', 20]]]],
+            ['log', 21]]
+    roots = [main]
+    if rng.random() < 0.4:
+        roots.append(['prog', ['sleep', rng.choice([F(1, 2), 1])], ['log', 80]])
+    return ['scenario', ['debug', 1], ['start', 0], ['flags', 1], ['locks', 0], ['roots'] + roots]
+
+
+SOURCES = [scopesuite.scope_tree, scopesuite.valid_scenario, await_failing_child]
 
 
 def run(tier, seed, drv):
